@@ -337,6 +337,10 @@ func (e *Engine) ret(s *State, results []Value) {
 		rv = TupleV(results)
 	}
 	if len(s.Frames) == 0 {
+		if len(s.Parked) > 0 {
+			e.threadExit(s)
+			return
+		}
 		s.Status = "done"
 		s.Ret = rv
 		return
@@ -424,7 +428,7 @@ func (e *Engine) violate(s *State, kind, msg string, extra *Term, in ssa.Instruc
 		return
 	}
 	e.seenFind[keyS] = true
-	e.Findings = append(e.Findings, Finding{Kind: kind, Msg: msg, Pos: pos, Func: fn, Stack: e.stack(s), Model: m, Arrays: arrays, Reach: append([]string(nil), s.Reach...)})
+	e.Findings = append(e.Findings, Finding{Kind: kind, Msg: msg, Pos: pos, Func: fn, Stack: e.stack(s), Model: m, Arrays: arrays, Reach: append([]string(nil), s.Reach...), Sched: append([]int(nil), s.Sched...)})
 }
 
 func (e *Engine) model(s *State, extra *Term) (map[string]string, map[string][]int, bool) {
@@ -1492,4 +1496,66 @@ func (e *Engine) lookupMethod(t types.Type, m *types.Func) *ssa.Function {
 		unsupp("no method %s on %s", m.Name(), t)
 	}
 	return fn
+}
+
+// ---- logical threads (harness-level scheduling; see verifSpawn/verifYield/verifJoinAll) ----
+
+// switchTo makes parked thread i the running one; the current thread is parked unless it has
+// finished (no frames).
+func (e *Engine) switchTo(s *State, i int) {
+	t := s.Parked[i]
+	rest := append(append([]*Thread(nil), s.Parked[:i]...), s.Parked[i+1:]...)
+	if len(s.Frames) > 0 {
+		rest = append(rest, &Thread{ID: s.CurID, Frames: s.Frames, Waiting: s.CurWait})
+	}
+	s.Parked = rest
+	s.Frames, s.CurID, s.CurWait = t.Frames, t.ID, false
+	s.Sched = append(s.Sched, t.ID)
+}
+
+// runnable lists parked threads that may run: non-waiting ones; a waiting (joining) thread only
+// when it is the last one left.
+func runnable(s *State) []int {
+	var out []int
+	for i, t := range s.Parked {
+		if !t.Waiting {
+			out = append(out, i)
+		}
+	}
+	if len(out) == 0 && len(s.Frames) == 0 {
+		for i := range s.Parked {
+			out = append(out, i)
+		}
+	}
+	return out
+}
+
+// threadExit: the running thread returned; resume any runnable thread (every choice is explored).
+func (e *Engine) threadExit(s *State) {
+	e.scheduleFrom(s, false)
+}
+
+// scheduleFrom forks one state per scheduling choice. keepCurrent adds "stay on this thread".
+func (e *Engine) scheduleFrom(s *State, keepCurrent bool) {
+	choices := runnable(s)
+	if len(choices) == 0 {
+		if keepCurrent {
+			return
+		}
+		s.Status = "unsupported: deadlock: no runnable thread"
+		return
+	}
+	start := 0
+	if !keepCurrent {
+		start = 1
+	}
+	for _, c := range choices[start:] {
+		o := s.Clone()
+		e.switchTo(o, c)
+		e.Pending = append(e.Pending, o)
+	}
+	if !keepCurrent {
+		e.switchTo(s, choices[0])
+	}
+	s.top()
 }
